@@ -230,7 +230,9 @@ func newShardOwner(s ShardInfo, ownerFreqs map[int]int) (uint64, error) {
 	)
 
 	for id, freq := range ownerFreqs {
-		if minId == -1 || freq < minFreq {
+		// Map iteration order is random: break ties by the lowest node id so
+		// that every replica applying the command picks the same owner.
+		if minId == -1 || freq < minFreq || (freq == minFreq && int(id) < minId) {
 			minId, minFreq = int(id), freq
 		}
 	}
